@@ -201,6 +201,8 @@ def random_cases(family, rng, count):
             if len(set(ys)) > 1:
                 out.append({"fn": "normalize", "axis": "y", "a": Y, "other": X, "lo": R(lo), "hi": R(hi)})
             out.append({"fn": "normalize", "axis": "x", "a": X, "other": Y, "lo": R(lo), "hi": R(hi)})
+            if rng.random() < 0.5 and len(set(ys)) > 1:
+                out.append({"fn": "normalize", "axis": "y", "a": Y, "other": X, "lo": R(lo), "hi": R(hi), "aoff": [rng.choice([-1, 1]), rng.choice([17, 20])]})
             v = Fraction(rng.choice([-1, 1]) * rng.randint(1, 64), 8)
             out.append({"fn": "shiftscale", "x": X, "y": Y, "op": rng.choice(["shift_x", "shift_y", "scale_x", "scale_y"]), "v": R(v)})
             # the same after a history of earlier shifts / scales (every call acts on the current samples by its own argument)
@@ -238,7 +240,7 @@ def random_cases(family, rng, count):
 
 
 CASE_KEYS = ("fn", "x", "y", "r", "a", "b", "left", "right", "lr", "rr", "start", "stop", "step", "explicit_none", "q", "n", "mode",
-             "qcontainer", "xcontainer", "explicit_method", "x0", "y0", "pre", "c", "normalized", "axis", "other", "lo", "hi", "op", "v", "container", "method", "m", "b", "xoff", "r_kind", "intcoef", "also_n", "xscl")   # x0 / y0 / pre are already listed
+             "qcontainer", "xcontainer", "explicit_method", "x0", "y0", "pre", "c", "normalized", "axis", "other", "lo", "hi", "op", "v", "container", "method", "m", "b", "xoff", "r_kind", "intcoef", "also_n", "xscl", "aoff")   # x0 / y0 / pre are already listed
 
 
 def case_of_event(ev):
